@@ -31,7 +31,9 @@ def gen(rng, tier):
         if k % 40 == 39 and k < (240 if tier == "quick" else 400):
             # (G1 below horizon ~15 has no travel arc with positive time and get_sequence_based cannot size its sequences:
             #  such horizons are outside the generator's domain)
-            yield dict(mode="testset", horizons=[15.5] if tier == "quick" else [15.5, 20, 25])
+            # (horizons 23 and 24 give path- and arc-based instances with equal variable counts but different data)
+            yield dict(mode="testset", horizons=([23, 24] if k == 39 else [15.5]) if tier == "quick" else [15.5, 20, 23, 24, 25],
+                       **(dict(load_limit=400) if tier == "quick" else {}))
             continue
         m = G.gen_matrix(rng, nmax=6)
         rows = m["rows"]
@@ -157,56 +159,72 @@ def run_testset(case, res):
                 res.fail("testset:raises", f"gen({case['horizons']}) raised {e!r}")
                 return
         files = sorted(os.listdir(d))
+        claimed = set()
+        from functools import partial
+        from vrpqubo.tools.qubo_tools import QUBOContainer
+        from vrpqubo.tools import load_tools
         for t_h in case["horizons"]:
             np.random.seed(99)
             mirp = get_mirp(t_h)
-            from functools import partial
             getters = dict(ab=mirp.get_arc_based, pb=mirp.get_path_based, sb=partial(mirp.get_sequence_based, strict=False))
             for name, getter in getters.items():
                 r_p = getter(make_feasible=True)
                 n = r_p.get_num_variables()
-                for suffix in ("o.rudy", "f.rudy", ".npz"):
-                    fn = f"test_{name}_{n}_{suffix}"
-                    if fn not in files:
-                        res.fail("testset:file-name", f"expected file {fn} (true variable count {n}) among {files[:12]}")
-                        return
-                # reload the saved constraint data through the feasibility tester on the stored feasible solution
+                # the files of this instance: names carry the true variable count (two horizons may give the same count: any scheme
+                # that keeps their files apart is fine, so every not yet claimed base name with that count is tried)
+                stem = f"test_{name}_{n}_"
+                bases = sorted({f[:-len(suf)] for suf in ("o.rudy", "f.rudy", ".npz") for f in files if f.startswith(stem) and f.endswith(suf)})
+                bases = [b for b in bases if all(b + suf in files for suf in ("o.rudy", "f.rudy", ".npz"))]
+                if not bases:
+                    res.fail("testset:file-name", f"no complete file triple {stem}*(o.rudy|f.rudy|.npz) (true variable count {n}, horizon {t_h}) among {files[:12]}")
+                    return
                 spins = x_to_s(np.asarray(r_p.feasible_solution))
                 sname = os.path.join(d, f"spins_{name}.txt")
                 with open(sname, "w") as fh:
                     fh.write("\n".join(str(int(s)) for s in spins))
-                try:
-                    vio_l, vio_q, nnz = test_feasibility.convenience(os.path.join(d, f"test_{name}_{n}_.npz"), sname)
-                except Exception as e:  # noqa
-                    res.fail("testset:reload-raises", f"convenience() raised {e!r} for {name} horizon {t_h}")
-                    continue
                 A, b, Q, r = r_p.get_constraint_data()
                 x = np.asarray(r_p.feasible_solution)
                 want_l = (A.dot(x) != b)
                 want_q = float(x.dot(Q.dot(x)) - r)
-                if list(np.asarray(vio_l).ravel()) != list(np.asarray(want_l).ravel()) or float(vio_q) != want_q or nnz != Q.nnz:
-                    res.fail("testset:violation-measures", f"reloaded violation measures differ from the in-memory ones for {name} horizon {t_h}")
-                if np.asarray(vio_l).any() or float(vio_q) != 0:
-                    res.fail("testset:stored-solution-infeasible", f"stored feasible solution violates the saved constraints ({name}, horizon {t_h})")
-                # feasibility instance: every coefficient is a multiple of 0.01 -> loads back exactly
-                from vrpqubo.tools.qubo_tools import QUBOContainer
-                from vrpqubo.tools import load_tools
                 Qf, cf = r_p.get_qubo(feasibility=True)
                 C = QUBOContainer(Qf, cf)
                 J = C.J.toarray()
                 if not (np.all(np.round(J * 100) == J * 100) and np.all(np.round(C.h * 100) == C.h * 100)):
                     res.fail("testset:feas-not-hundredths", f"feasibility instance has coefficients that are not multiples of 0.01 ({name})")
-                try:
-                    M, const = load_tools.load_ising_matrix(os.path.join(d, f"test_{name}_{n}_f.rudy"))
-                    L = M.toarray()
-                    m = L.shape[0]
-                    full = np.zeros((n, n))
-                    full[:m, :m] = L
-                    want = J + np.diag(C.h)
-                    if not np.array_equal(full, want) or float(const) != round(float(C.const_ising), 2):
-                        res.fail("testset:feas-reload", f"feasibility file of {name} (horizon {t_h}) does not load back to the in-memory Ising problem")
-                except Exception as e:  # noqa
-                    res.fail("testset:load-raises", f"loader raised {e!r} on the feasibility file of {name} horizon {t_h}")
+                problems = []
+                for base in bases:
+                    if base in claimed:
+                        continue
+                    why = None
+                    try:
+                        vio_l, vio_q, nnz = test_feasibility.convenience(os.path.join(d, base + ".npz"), sname)
+                        if list(np.asarray(vio_l).ravel()) != list(np.asarray(want_l).ravel()) or float(vio_q) != want_q or nnz != Q.nnz:
+                            why = ("testset:violation-measures", f"reloaded violation measures of {base}.npz differ from the in-memory ones for {name} horizon {t_h}")
+                        elif np.asarray(vio_l).any() or float(vio_q) != 0:
+                            why = ("testset:stored-solution-infeasible", f"stored feasible solution violates the saved constraints ({name}, horizon {t_h})")
+                    except Exception as e:  # noqa
+                        why = ("testset:reload-raises", f"convenience() raised {e!r} for {name} horizon {t_h}")
+                    if why is None and n <= case.get("load_limit", 10 ** 9):
+                        # feasibility instance: every coefficient is a multiple of 0.01 -> loads back exactly
+                        # (the package's loader is quadratic in the number of lines: large files only in the thorough tier)
+                        try:
+                            M, const = load_tools.load_ising_matrix(os.path.join(d, base + "f.rudy"))
+                            L = M.toarray()
+                            m = L.shape[0]
+                            full = np.zeros((n, n))
+                            full[:m, :m] = L
+                            want = J + np.diag(C.h)
+                            if m > n or not np.array_equal(full, want) or float(const) != round(float(C.const_ising), 2):
+                                why = ("testset:feas-reload", f"feasibility file {base}f.rudy (horizon {t_h}) does not load back to the in-memory Ising problem")
+                        except Exception as e:  # noqa
+                            why = ("testset:load-raises", f"loader raised {e!r} on the feasibility file of {name} horizon {t_h}")
+                    if why is None:
+                        claimed.add(base)
+                        break
+                    problems.append(why)
+                else:
+                    sig, msg = problems[0] if problems else ("testset:file-overwritten", f"every file triple {stem}* already belongs to another horizon")
+                    res.fail(sig, msg + f" (horizons {case['horizons']}: another instance with the same variable count may have overwritten the files)")
     res.nontrivial = True
 
 
